@@ -378,7 +378,7 @@ pub fn run(ctx: &Ctx) {
     let n = msgs.len() as u64;
     indexed_stage(ctx, "boundary-cross-product", n, |i| msgs[i as usize].clone(), check_msg);
     ctx.extra("exhaustive_stage", json!({"boundary_integers": BOUNDARY_INTS.iter().map(|x| x.to_string()).collect::<Vec<_>>(), "values": n, "exhaustive": true}));
-    random_stage(ctx, "random", ctx.tier.pick(60_000, 5_000_000), msg_strategy, |m: &Msg, local| check_msg(m, local));
+    random_stage(ctx, "random", ctx.tier.pick(300_000, 5_000_000), msg_strategy, |m: &Msg, local| check_msg(m, local));
 }
 
 pub fn replay(case: &Value) -> Check {
